@@ -18,6 +18,8 @@ enum MV {
     /// `f`: closure that captured `a` (Some) or found it unbound at definition (None)
     FunF(Option<i64>),
     List(Vec<i64>),
+    /// some other value (not compared)
+    Opaque,
 }
 
 #[derive(Clone, Debug, Default, PartialEq)]
@@ -57,6 +59,11 @@ fn int(m: &Model, n: &str) -> Option<i64> {
         Some(MV::Int(i)) => Some(*i),
         _ => None,
     }
+}
+
+/// `n` is bound to something the model does not compute with
+fn non_int(m: &Model, n: &str) -> bool {
+    matches!(m.vars.get(n), Some(MV::Opaque) | Some(MV::List(_)) | Some(MV::FunF(_)))
 }
 
 fn alphabet() -> Vec<Stmt> {
@@ -163,6 +170,7 @@ fn alphabet() -> Vec<Stmt> {
             inner: &["t"],
             model: |m| match int(m, "a") {
                 Some(a) => Exp::Ok(Some(MV::Int(a + 7))),
+                None if non_int(m, "a") => Exp::Any,
                 None => Exp::Fail,
             },
         },
@@ -184,7 +192,8 @@ fn alphabet() -> Vec<Stmt> {
             inner: &[],
             model: |m| {
                 let cap = int(m, "a");
-                if bind(m, "f", MV::FunF(cap)) { Exp::Ok(None) } else { Exp::Fail }
+                let v = if non_int(m, "a") { MV::Opaque } else { MV::FunF(cap) };
+                if bind(m, "f", v) { Exp::Ok(None) } else { Exp::Fail }
             },
         },
         Stmt {
@@ -196,8 +205,11 @@ fn alphabet() -> Vec<Stmt> {
                 // `a` was unbound at definition: the body falls back to the caller's environment
                 Some(MV::FunF(None)) => match int(m, "a") {
                     Some(a) => Exp::Ok(Some(MV::Int(a + 1))),
+                    None if non_int(m, "a") => Exp::Any,
                     None => Exp::Fail,
                 },
+                // f is bound to something else (a function over a non-number, or not a function)
+                Some(MV::Opaque) => Exp::Any,
                 _ => Exp::Fail,
             },
         },
@@ -221,6 +233,7 @@ fn alphabet() -> Vec<Stmt> {
             inner: &["t", "x"],
             model: |m| match int(m, "a") {
                 Some(a) => Exp::Ok(Some(MV::List(vec![a, 0]))),
+                None if non_int(m, "a") => Exp::Any,
                 None => Exp::Fail,
             },
         },
@@ -307,6 +320,13 @@ fn alphabet() -> Vec<Stmt> {
                 Exp::Fail
             },
         },
+        // ... wherever in the value expression the inner binding sits: computed record key, record
+        // spread, call argument, condition, indexed operand
+        Stmt { src: "a = {[a = \"k\"]: 1}", targets: &["a"], inner: &[], model: |m| { bind(m, "a", MV::Opaque); Exp::Fail } },
+        Stmt { src: "b = {...(b = {z: 1}), y: 2}", targets: &["b"], inner: &[], model: |m| { bind(m, "b", MV::Opaque); Exp::Fail } },
+        Stmt { src: "a = (x => x)(a = 4)", targets: &["a"], inner: &["x"], model: |m| { bind(m, "a", MV::Int(4)); Exp::Fail } },
+        Stmt { src: "b = if (b = true) then 1 else 2", targets: &["b"], inner: &[], model: |m| { bind(m, "b", MV::Opaque); Exp::Fail } },
+        Stmt { src: "a = (a = [7])[0]", targets: &["a"], inner: &[], model: |m| { bind(m, "a", MV::List(vec![7])); Exp::Fail } },
         Stmt {
             src: "output b = [b = 4, b]",
             targets: &["b"],
@@ -367,7 +387,7 @@ fn mv_canon(v: &MV) -> Option<String> {
     match v {
         MV::Int(i) => Some(num_repr(*i as f64)),
         MV::List(l) => Some(format!("[{}]", l.iter().map(|i| num_repr(*i as f64)).collect::<Vec<_>>().join(", "))),
-        MV::FunF(_) => None,
+        MV::FunF(_) | MV::Opaque => None,
     }
 }
 
@@ -604,7 +624,7 @@ pub fn run(ctx: &Ctx, replay: Option<&J>) -> i32 {
     ctx.set("fixpoint_reached", json!(ctx.caps.lock().unwrap().is_empty()));
     ctx.set(
         "trusted_base",
-        json!(["reference model of the 49-statement alphabet in mc/src/c03.rs", "canonical state key (sorted bindings + outputs)"]),
+        json!(["reference model of the 54-statement alphabet in mc/src/c03.rs", "canonical state key (sorted bindings + outputs)"]),
     );
     ctx.assume("names and values outside the statement alphabet are not explored");
     // vacuity guards
